@@ -128,7 +128,7 @@ type inheritCase struct {
 
 // tierA evaluates ~500 placements of requirements through the real DSL and compares
 // MethodExpr.Requirements / service data with the design's own reading; writes cases_inherit.txt.
-func tierA(res *vh.Result, outDir string, distinct vh.Distinct) ([]string, []any) {
+func tierA(res *vh.Result, outDir string, distinct vh.Distinct, only *dg.Design) ([]string, []string) {
 	pool := []dg.Scheme{{Kind: "basic", Name: "bas", Scopes: []string{"b:r"}}, {Kind: "apikey", Name: "key", Scopes: []string{"k:use"}},
 		{Kind: "jwt", Name: "jwt", Scopes: []string{"api:read", "api:write"}}, {Kind: "oauth2", Name: "oa", Scopes: []string{"o:x"}}}
 	R := func(scopes []string, schemes ...string) dg.Requirement {
@@ -143,8 +143,9 @@ func tierA(res *vh.Result, outDir string, distinct vh.Distinct) ([]string, []any
 		{R([]string{"api:read"}, "jwt", "jwt"), R(nil, "key"), R(nil, "key")},
 	}
 	locs := map[string]string{attrKey: "header:X-Key", attrToken: "query:t", attrAToken: "body"}
-	var lines []string
+	var lines, insLines []string
 	var cases []any
+	var designs []*dg.Design
 	for ai, av := range variants {
 		for si, sv := range variants {
 			d := &dg.Design{Name: fmt.Sprintf("inh_%d_%d", ai, si), Schemes: pool, Security: av}
@@ -160,6 +161,55 @@ func tierA(res *vh.Result, outDir string, distinct vh.Distinct) ([]string, []any
 				buildMethod(d, s2, methodSpec{Name: "own", Own: variants[(ai+si)%5+1], Locs: locs, Required: true}),
 				buildMethod(d, s2, methodSpec{Name: "open", NoSec: true}))
 			d.Services = []*dg.Service{s, s2}
+			designs = append(designs, d)
+		}
+	}
+	// siblings: several methods inherit ONE service- or API-level requirement and each maps the
+	// credentials to a different place; every rotation, so that whichever endpoint goa finalizes
+	// last, the others are observed too
+	sibPool := pool[1:] // no Basic: it owns the Authorization header
+	locTables := []map[string]string{
+		{attrAToken: "query:at", attrKey: "header:X-Key"}, // token: implicit Authorization
+		{attrToken: "query:t", attrAToken: "header:X-At", attrKey: "body"},
+		{attrToken: "header:X-Tok", attrAToken: "body"}, // key: implicit Authorization
+		{attrToken: "body", attrKey: "query:k"},         // atoken: implicit Authorization
+	}
+	sibReqs := [][]dg.Requirement{
+		{R(nil, "jwt")},
+		{R(nil, "key"), R(nil, "oa")},
+		{R([]string{"api:read"}, "jwt", "key")},
+		{R(nil, "oa"), R(nil, "jwt"), R(nil, "key")},
+	}
+	for lvl, level := range []string{"service", "api"} {
+		for ri, rv := range sibReqs {
+			for rot := 0; rot < 4; rot++ {
+				d := &dg.Design{Name: fmt.Sprintf("sib_%s_%d_%d", level, ri, rot), Schemes: sibPool}
+				s := &dg.Service{Name: "svc"}
+				if lvl == 0 {
+					s.Security = rv
+				} else {
+					d.Security = rv
+				}
+				for i := 0; i < 4; i++ {
+					s.Methods = append(s.Methods, buildMethod(d, s, methodSpec{Name: fmt.Sprintf("sib%d", i), Locs: locTables[(i+rot)%4], Required: (i+ri)%2 == 0}))
+				}
+				s.Methods = append(s.Methods, buildMethod(d, s, methodSpec{Name: "own", Own: []dg.Requirement{R(nil, "oa")}, Locs: locTables[(rot+1)%4]}))
+				d.Services = []*dg.Service{s}
+				if lvl == 1 {
+					s2 := &dg.Service{Name: "other"}
+					s2.Methods = append(s2.Methods, buildMethod(d, s2, methodSpec{Name: "far0", Locs: locTables[(rot+2)%4]}),
+						buildMethod(d, s2, methodSpec{Name: "far1", Locs: locTables[(rot+3)%4], Required: true}))
+					d.Services = append(d.Services, s2)
+				}
+				designs = append(designs, d)
+			}
+		}
+	}
+	if only != nil {
+		designs = []*dg.Design{only} // replay of one placement
+	}
+	for _, d := range designs {
+		{
 			oc := d.Eval()
 			if !oc.Accepted {
 				res.Count("tierA_design_rejected")
@@ -228,6 +278,54 @@ func tierA(res *vh.Result, outDir string, distinct vh.Distinct) ([]string, []any
 						in["observed_data"] = dat
 						res.Fail("requirement-data-differs", fmt.Sprintf("service data of %s.%s lists requirements %v, the design says %v", svc.Name, m.Name, dat, firstOfEachName(want)), in)
 					}
+					// where goa says each scheme's credential travels for THIS endpoint
+					if hs := expr.Root.API.HTTP.Service(svc.Name); hs != nil {
+						if he := hs.Endpoint(m.Name); he != nil {
+							mi := &methodInfo{D: d, S: svc, M: m}
+							var obsIns, wantIns [][][2]string
+							var coqObs []string
+							for _, r := range he.Requirements {
+								var row [][2]string
+								var crow []string
+								for _, sc := range r.Schemes {
+									row = append(row, [2]string{sc.SchemeName + ":" + sc.In, sc.Name})
+									crow = append(crow, fmt.Sprintf("(%s, %s)", vh.CoqString(sc.SchemeName), vh.CoqString(sc.In)))
+								}
+								obsIns = append(obsIns, row)
+								coqObs = append(coqObs, vh.CoqList(crow))
+							}
+							for _, r := range effectiveReqs(d, svc, m) {
+								var wrow [][2]string
+								for _, n := range r.Schemes {
+									k := schemeByName(d, n).Kind
+									in, name := "header", "Authorization"
+									if k != "basic" {
+										a := credAttrsOfKind(k)[0]
+										w := wireLoc(m, a)
+										switch {
+										case strings.HasPrefix(w, "header:"):
+											name = strings.TrimPrefix(w, "header:")
+										case strings.HasPrefix(w, "query:"):
+											in, name = "query", strings.TrimPrefix(w, "query:")
+										default:
+											in, name = "body", a
+										}
+									}
+									wrow = append(wrow, [2]string{n + ":" + in, name})
+								}
+								wantIns = append(wantIns, wrow)
+							}
+							insLines = append(insLines, fmt.Sprintf("(%d, %s, %s, %s)", len(insLines), coqLocs(mi), coqReqs(fin), vh.CoqList(coqObs)))
+							if !reflect.DeepEqual(obsIns, wantIns) {
+								in["observed_locations"], in["expected_locations"] = obsIns, wantIns
+								res.Fail("scheme-location-not-the-methods-own", fmt.Sprintf("endpoint %s.%s: goa records the credential locations %v for its schemes, the method's own mapping says %v (sibling methods inheriting the same requirement must not influence it)",
+									svc.Name, m.Name, obsIns, wantIns), in)
+							}
+							if len(m.Security) == 0 && !m.NoSecurity && len(fin) > 0 {
+								res.Count("inheriting_endpoints_observed")
+							}
+						}
+					}
 					res.Sample(map[string]any{"tier": "A", "method": svc.Name + "." + m.Name, "own": own, "service": sreqs, "api": areqs, "final": fin}, 2)
 					switch {
 					case m.NoSecurity:
@@ -245,7 +343,7 @@ func tierA(res *vh.Result, outDir string, distinct vh.Distinct) ([]string, []any
 			}
 		}
 	}
-	return lines, cases
+	return lines, insLines
 }
 
 // safeServiceData runs goa's service analysis, which panics on some inconsistent inputs.
